@@ -12,7 +12,12 @@ from ECAgent.Environments import PositionComponent, SpaceWorld
 _REAL = {}
 
 
+_REAL_LINE = []
+
+
 def _real():
+    if not _REAL_LINE:
+        _REAL_LINE.append(Env.LineWorld(Model(), 10))
     if not _REAL:
         _REAL['grid'] = Env.GridWorld(Model(), 6, 5)
 
@@ -125,6 +130,12 @@ def box_int(x0: int, y0: int, z0: int, x1: int, y1: int, z1: int, qx: int, qy: i
                               positions=where, query=(qx, qy, qz), leeways=(lw, lx, ly, lz)))
     if len(exp) == 0 and got != []:
         return hx.end(hx.fail("empty result is not []"))
+    # the answer is the caller's own list: whatever the caller does to it does not show in the next answer
+    got.append("mine")
+    again = env.get_agents_at(qx, qy, qz, leeway=lw, x_leeway=lx, y_leeway=ly, z_leeway=lz)
+    if not hx.same_seq(again, exp):
+        return hx.end(hx.fail("the same query answered differently after the caller extended the first answer",
+                              got=[getattr(a, "id", a) for a in again], exp=[a.id for a in exp]))
     return hx.end(True)
 
 
@@ -136,7 +147,13 @@ def after_move(x0: int, dx: int, qx: int, lw: int, rm: bool) -> bool:
     # agents moved or removed since placement: the query sees the current positions / residents
     hx.begin()
     m = Model(logger=NULL_LOGGER)
-    env = SpaceWorld(m, 9, 0, 0)
+    if hx.P.get('world') == 'line':
+        env = _REAL_LINE[0]                   # a real LineWorld of 10 cells (0..9)
+        env.agents.clear()
+        env.components.clear()
+        env.set_model(m)
+    else:
+        env = SpaceWorld(m, 9, 0, 0)
     m.environment = env
     a, b = Agent("a", m), Agent("b", m)
     env.add_agent(a, x0)
@@ -269,7 +286,7 @@ def obligations(tier):
     obs = [
         X("box_int", box_int, parts=parts, labels=("none", "some", "all"),
           labels_for=lambda p: ("none",) if p["n"] == 0 else ("none", "all") if p["n"] == 1 else ("none", "some", "all"), timeout=1800, encoded=enc),
-        X("after_move", after_move, labels=("removed", "found"), timeout=600, encoded=enc + (SpaceWorld.move, SpaceWorld.remove_agent)),
+        X("after_move", after_move, parts=[{"world": "space"}, {"world": "line"}], labels=("removed", "found"), timeout=600, encoded=enc + (SpaceWorld.move, SpaceWorld.remove_agent)),
         X("after_move_to", after_move_to, parts=[{"world": "space"}, {"world": "grid"}], labels=("moved", "rejected", "found"), timeout=600,
           encoded=enc + (SpaceWorld.move_to,), bounds={"world": "10x7 continuous / 6x5 grid, 2 agents", "start, target, query point, leeway": "all ints"}),
         X("wrap_outside_F5", wrap_box, parts=[{"mode": "outside", "w": w} for w in W], labels=("no_seam",), timeout=600, encoded=enc,
